@@ -2,6 +2,7 @@ package pkt
 
 import (
 	"fmt"
+	packettypes "github.com/teleport-network/teleport/x/xibc/core/packet/types"
 	"math/big"
 	"time"
 
@@ -129,6 +130,11 @@ func (s *Sim) RandSendSpec(callKinds []string) SendSpec {
 			}
 		}
 	}
+	// the fee option is an opaque number the packet carries to the destination: every value must survive the round trip
+	// log -> hook -> commitment unchanged
+	if s.Rng.Intn(3) == 0 {
+		sp.FeeOption = []uint64{1, 2, 3, 255, 1 << 32, 1<<63 + 5, 1<<64 - 1}[s.Rng.Intn(7)]
+	}
 	return sp
 }
 
@@ -192,4 +198,19 @@ func (s *Sim) UpgradeClient(n, of *core.Node) error {
 	err := s.W.UpgradeTM(n, of, 14*24*time.Hour)
 	s.logf("client for %s on %s upgraded to a fresh anchor (err=%v)", of.Name, n.Name, err)
 	return err
+}
+
+// RecvRelayer returns the relayer that delivered p to its destination (read from the acknowledgement the destination
+// wrote, which names it), or nil.
+func (s *Sim) RecvRelayer(p *Pkt) *core.Account {
+	var ack packettypes.Acknowledgement
+	if len(p.AckWritten) == 0 || ack.ABIDecode(p.AckWritten) != nil {
+		return nil
+	}
+	for _, r := range s.W.Relayers {
+		if r.Bech32() == ack.Relayer {
+			return r
+		}
+	}
+	return nil
 }
